@@ -8,6 +8,7 @@ TemplateData.wire must reference every flat index exactly once.  The four CLI pa
 (decode [-a] [-j] -> encode [-a] [-j]) are driven in-process on a sample.
 """
 import glob
+import copy
 import json
 import os
 import shutil
@@ -162,6 +163,25 @@ def factor_has_attr(nodes):
     return False
 
 
+def scramble(o, depth=0):
+    """edit a result object in place, as deep as it goes (what a caller may do with something he was given)"""
+    if isinstance(o, list):
+        for x in o:
+            scramble(x, depth + 1)
+        if o and not isinstance(o[0], (list, dict)):
+            o.reverse()
+            if len(o) > 1:
+                del o[-1]
+        o.append('edited-by-the-caller')
+    elif isinstance(o, dict):
+        for x in list(o.values()):
+            scramble(x, depth + 1)
+        for k in list(o):
+            if not isinstance(o[k], (list, dict)):
+                o[k] = 'edited-by-the-caller'
+        o['edited'] = True
+
+
 def check_message(ctx, m, enc, spec, sigctx, ids, want_encode=True):
     """m: decoded BufrMessage (wired)."""
     from pybufrkit.renderer import FlatJsonRenderer, NestedJsonRenderer, FlatTextRenderer, NestedTextRenderer
@@ -227,6 +247,33 @@ def check_message(ctx, m, enc, spec, sigctx, ids, want_encode=True):
                                                         sigctx_f if name == 'nested-text' else sigctx),
                         '%s converted back to flat differs from the flat JSON at %r: %r vs %r'
                         % (name, d[0], d[1], d[2]), spec, expected=d[2], observed=d[1])
+    # ---- what a caller was given stays his: the nested view handed to the converter still shows what it showed, and a
+    # conversion repeated after the caller edited the result of the first one (in place, as deep as it goes) gives the first result
+    if ctx.counters['conversions_compared'] % 9 < 3 or spec.get('origin') == 'shape':
+        if dumps(nj) != dumps(json.loads(dumps(nj_obj))):
+            ctx.violate('converter-changes-its-argument/nested-json/' + sigctx, 'the nested JSON view passed to nested_json_to_flat_json no longer '
+                        'shows what the renderer returned', spec)
+        nj_text = dumps(nj)         # the result of the first conversion may share structure with its argument (both are the caller's)
+        for name, fn in (('nested-json', lambda: utils.nested_json_to_flat_json(json.loads(nj_text))),
+                         ('flat-text', lambda: utils.flat_text_to_flat_json(ft)),
+                         ('nested-text', lambda: utils.nested_text_to_flat_json(nt))):
+            if name not in results:
+                continue
+            snap = dumps(results[name])
+            edited = copy.deepcopy(results[name])       # the encodes below still use the first result as it was
+            first = results[name]
+            results[name] = edited
+            scramble(first)
+            ctx.count('conversions_repeated_after_edit')
+            try:
+                again = dumps(fn())
+            except Exception as e:
+                ctx.violate('convert-after-edit-of-earlier-result-raises/%s:%s' % (name, type(e).__name__),
+                            '%s -> flat raised %s the second time, after the caller had edited the first result in place' % (name, type(e).__name__), spec, exc=e)
+                continue
+            if again != snap:
+                ctx.violate('convert-after-edit-of-earlier-result-differs/%s/%s' % (name, sigctx),
+                            '%s converted to flat a second time, after the caller had edited the first result in place, differs from the first result' % name, spec)
     # ---- conservation walk over the nested JSON view
     for k, nodes in enumerate(nodes_all):
         ctx.count('conservation_walks')
